@@ -52,7 +52,11 @@ theorem c05_reuse_has_last (closed : List Closed) (h : (!closed.isEmpty) = true)
 
 /-- The smallness hypothesis of (h) cannot be dropped: a chunk holding
 `PurgeUpto (0, u64::MAX)` makes the model of `open` panic (overflow of
-`next_log_index` during replay). -/
+`next_log_index` during replay). Since D12 (`append`/`purge` refuse such ids with
+`InvalidInput`) no store can produce this file any more — every chunk file of a
+reachable state holds small records only, for ANY well-formed history:
+`c16_open_no_panic_history_all`, `c16_recovery_never_panics` in
+Props/C16All2.lean — so this is about a hand-made (or foreign) file. -/
 theorem c05_open_panics_on_max_index :
     (openStore {} [{ id := 0, data := encRecord (.purgeUpto ⟨0, 2 ^ 64 - 1⟩) }]).1.isPanic = true := by
   decide +kernel
